@@ -11,6 +11,10 @@ CLAIMED = {
    tech="TLA+ spec CacheCore.tla (keyed TTL cache over quarter-second time) model-checked by TLC with two sanity configs; TLC-generated and seeded histories run through the real simple and ECS-aware cache middlewares under a virtual clock, each query also answered by a cold instance; traces validated by TLC (TraceCacheCore.tla)",
    text="TLC checks HitEqualsFresh, TTLBound, NothingAfterExpiry and OnlyCacheable over all histories of 3 keys within a 4 s horizon in quarter-second steps; the real middlewares are then driven through histories of queries (names shared across qtype/qclass/DO variants, mixed case, AD/CD bits, every answer class the property lists plus non-cacheable ones) interleaved with clock advances landing around expiry; TLC explains every hit by a live entry stored for the same key, equal to what a cold instance answers now, with every served TTL bounded by ceil(original - age); fromCacheItem of both caches is exercised at every quarter second of an item's life.",
    note=TRUST + "overlay rewrite of time.Now/Since in cache.go, ecscache/cache.go and bluele/gcache to a virtual clock (fails closed); scripted upstream = function of (name, qtype, qclass, DO) that echoes EDNS/DO like a resolver; cacheability oracle per the property's list.", ref="6 C04"),
+ "C05": dict(
+   tech="TLA+ spec EcsCache.tla (two stores, clients with family/location/ECS option kinds, subnet-dependent upstream) model-checked by TLC with two sanity configs; histories through the real NewHandlers stack with the ECS cache and a recording upstream; per-event validation by TLC (TraceEcsCache.tla)",
+   text="TLC explores every history of queries from clients of 2-3 locations x 2 families x 4 ECS option kinds over scoped and unscoped questions and checks that the forwarded subnet is the coarse one or the zero prefix, that opted-out clients get /0 and never a scoped answer, that an answer scoped to a subnet is only served to clients mapped to that subnet and family, echo-iff-valid and FORMERR for malformed options. The real stack (ratelimitmw ECS/location parsing + ecscache) is driven with 7 clients whose address, supplied subnet and GeoIP subnet are pairwise different; the upstream fake records the option it receives and encodes the subnet in scoped answers so that every response reveals which subnet it was made for.",
+   note=TRUST + "fake GeoIP table; C05 is claimed for cache.type ecs only; when the option's own location is unknown the client's location or the zero prefix are both accepted.", ref="6 C05"),
  "C10": dict(
    tech="TLA+ decision table and pipeline model Access.tla checked exhaustively by TLC (+4 defect-variant sanity configs); per-line trace validation (TraceAccess.tla) of the real access.Global / access.DefaultProfile and of requests through real dnssvc.NewHandlers handlers with recording fakes",
    text="TLC enumerates all 576 abstract access vectors x pipeline stages and checks blocked <=> contract, blocked leaves no trace, allow overrides block, exceptions unblock, unblocked is processed; every realisable vector (294) is concretised (overlapping prefixes incl. /0, /31, /32, IPv6, v4-mapped and zoned clients, ASNs, rule variants, mixed case) and validated against the real code both at unit level and through the full handler stack, where the effect set (written, resolved, filtered, cached, logged, billed, rulestat, dnsdb) is observed with recording fakes.",
